@@ -307,6 +307,21 @@ def r6_layout(ctx):
     b1 = unify(L, ["for ($1.items(), (?id, ?t))", "?est[?id] = ..."])
     ctx.check(b1 is not None, "C09.R6", f, loops[0] if loops else f.node, "one estimation per requested individual, keyed by its identifier", "estimations are not produced per requested individual",
               construct="one estimation per individual")
+    # "exactly the requested individuals": the mapping that is iterated is the request itself - the only re-binding of it is the conversion of a
+    # MultiIndex request into {ID: ages}; a re-binding that filters entries drops requested individuals
+    import re as _re
+    L0 = Canon(f.node).lines(False, True)
+    for ln in L0:
+        if ln.startswith("$1 = "):
+            if _re.fullmatch(r"\$1 = \{(%\d+): (%\d+)\.values for \1, \2 in \$1\.to_frame\(\)\['TIME'\]\.groupby\('ID'(, sort=False)?\)\}", ln):
+                ctx.ok("C09.R6", f, f.node, "a MultiIndex request is regrouped by individual (every requested ID kept)", construct="request regrouped")
+            elif _re.search(r"\bfor\b.*\bif\b", ln) or "filter(" in ln or ".pop(" in ln:
+                ctx.violation("C09.R6", f, f.node, f"the request is replaced by `{ln[5:][:90]}`: requested individuals for which the filter fails are missing from the result "
+                              "(e.g. an individual requested with no age: an empty array is expected for it)", construct="request filtered")
+            elif _re.fullmatch(r"\$1 = \{(%\d+): [^{}]*\b(%\d+)\b[^{}]* for \1, \2 in \$1\.items\(\)\}", ln):
+                ctx.ok("C09.R6", f, f.node, "the request is re-mapped entry by entry (every requested ID kept)", construct="request re-mapped")
+            else:
+                ctx.unknown("C09.R6", f, f.node, f"the request mapping is re-bound by `{ln[:90]}`", construct="request re-bound")
     b2 = unify(L, ["for ($1.items(), (?id, ?t))", "?est[?id] = $0.compute_individual_trajectory(?t, $2[?id])..."])
     ctx.check(b2 is not None, "C09.R6", f, f.node, "each individual estimated with its own parameters at its own ages", "an individual is estimated with another's parameters / ages", construct="own parameters and ages")
     src = U(f.node)
